@@ -22,7 +22,14 @@
  *   `p<PRIO>` / `s<KB>` go through p_uthread_create_full, `x` lets the new thread run into the library's proxy
  *   while the creator is still inside p_uthread_create_full (p_spinlock_lock is wrapped: the creator returns from
  *   the native create only once the child has reached the creation spinlock), `eperm` makes the first native
- *   create fail with EPERM (the library retries), `eagain` makes it fail for good (create returns NULL).
+ *   create fail with EPERM (the library retries), `eagain` makes it fail for good, `fail:attr` / `fail:detach` make
+ *   pthread_attr_init / pthread_attr_setdetachstate fail (create returns NULL; the PUThread block the call allocated takes
+ *   the next handle id and is reported in F= when the library released it inside the call, in L= from then on when not).
+ * - `A set K V fail` / `A replace K V fail` / `A get K fail`: the call on a key that has no native key yet, with the lazy
+ *   pthread_key_create failing (N= shows `kcfail`); `A current fail2` / `fail3`: p_uthread_current of a thread without a stored
+ *   handle with the next 2 / 3 pthread_key_create calls failing (NULL; the PUThreadBase block takes a handle id as above).
+ * - `A join H fail`: p_uthread_join with the native pthread_join reporting an error (ESRCH, nothing is joined).
+ * - `A misc` calls p_uthread_ideal_count / p_uthread_yield / p_uthread_current_id in thread A (answer `ok`).
  * - `A prio H P` calls p_uthread_set_priority on a library-created thread that has not ended (no effect on handles).
  * - every case (ops up to `reset`) runs in a forked child; a sanitizer abort ends the whole run with
  *   the child's status.
@@ -45,6 +52,9 @@
 
 int __real_pthread_create (pthread_t *, const pthread_attr_t *, void *(*) (void *), void *);
 int __real_pthread_key_create (pthread_key_t *, void (*) (void *));
+int __real_pthread_attr_init (pthread_attr_t *);
+int __real_pthread_attr_setdetachstate (pthread_attr_t *, int);
+int __real_pthread_join (pthread_t, void **);
 int __real_pthread_key_delete (pthread_key_t);
 int __real_pthread_setspecific (pthread_key_t, const void *);
 void *__real_pthread_getspecific (pthread_key_t);
@@ -81,8 +91,19 @@ static int nblk, baseline, shut_comp;      /* shut_comp: init-time blocks that s
 static pthread_mutex_t amx = PTHREAD_MUTEX_INITIALIZER;
 static int freedH[256], nfreedH;
 
+/* the first block of at least 32 bytes the calling thread allocates while `watch_big` is set (the PUThread block of a
+ * p_uthread_create* call, the PUThreadBase block of p_uthread_current), and whether it has been freed again */
+static __thread int watch_big, first_big_freed;
+static __thread void *first_big;
+/* blocks the calling thread allocated while `watch_all` is set and that are still allocated (a TLS call whose key creation
+ * fails must leave none) */
+static __thread int watch_all, nop_blk;
+static __thread void *op_blk[16];
+
 static ppointer t_malloc (psize n) {
 	void *p = malloc (n ? n : 1);
+	if (watch_big && first_big == NULL && n >= 32) first_big = p;
+	if (watch_all && nop_blk < 16) op_blk[nop_blk++] = p;
 	pthread_mutex_lock (&amx);
 	if (nblk >= MAXB) DIE ("block table full");
 	blks[nblk].p = p; blks[nblk].tag = 0; blks[nblk].id = -1; nblk++;
@@ -91,6 +112,8 @@ static ppointer t_malloc (psize n) {
 }
 static void t_free (ppointer p) {
 	if (p == NULL) return;
+	if (watch_big && p == first_big && !first_big_freed) first_big_freed = 1;
+	if (watch_all) for (int i = 0; i < nop_blk; i++) if (op_blk[i] == p) { op_blk[i] = op_blk[--nop_blk]; break; }
 	pthread_mutex_lock (&amx);
 	int i;
 	for (i = nblk - 1; i >= 0; i--) if (blks[i].p == p) break;
@@ -124,10 +147,11 @@ static void nat (const char *fmt, ...) {
 
 /* ------------------------------------------------------------------ threads */
 enum { ABSENT, CREATED, RUNNING, FINISHED, ENDED };
-enum { O_NONE, O_CREATE, O_SET, O_REPLACE, O_GET, O_CURRENT, O_EXIT, O_RETURN, O_REF, O_UNREF, O_JOIN, O_KEYNEW, O_KEYFREE, O_RACE, O_PRIO };
+enum { O_NONE, O_CREATE, O_SET, O_REPLACE, O_GET, O_CURRENT, O_EXIT, O_RETURN, O_REF, O_UNREF, O_JOIN, O_KEYNEW, O_KEYFREE, O_RACE, O_PRIO, O_MISC };
 typedef struct {
 	int kind, k, h, joinable, named, notif; long code; unsigned long v;
 	int jv, namelen, full, prio, cmode; unsigned long stack;      /* create options */
+	int jfail;                                                   /* join: the native pthread_join reports an error */
 	char res[48];
 } Op;
 typedef struct {
@@ -178,7 +202,9 @@ static void notif_common (int fn, void *v) {
 static int is_notif (void (*d) (void *)) { for (int i = 0; i < 16; i++) if (d == (void (*) (void *)) notif_fn[i]) return 1; return 0; }
 
 /* ---- wrapped native calls (only the library's own calls come through here) */
+static int fail_kc;                                     /* the next `fail_kc` calls of the library fail */
 int __wrap_pthread_key_create (pthread_key_t *key, void (*d) (void *)) {
+	if (fail_kc > 0) { fail_kc--; nat ("kcfail"); return EAGAIN; }
 	int r = __real_pthread_key_create (key, d);
 	char b[24];
 	if (r == 0) {
@@ -285,6 +311,21 @@ int __wrap_pthread_create (pthread_t *t, const pthread_attr_t *attr, void *(*fn)
 	return r;
 }
 
+/* scripted failures of native calls (each consumed by the next call of the library) */
+static int fail_attr_init, fail_detach, fail_join;
+int __wrap_pthread_attr_init (pthread_attr_t *a) {
+	if (fail_attr_init) { fail_attr_init = 0; return ENOMEM; }
+	return __real_pthread_attr_init (a);
+}
+int __wrap_pthread_attr_setdetachstate (pthread_attr_t *a, int st) {
+	if (fail_detach) { fail_detach = 0; return EINVAL; }
+	return __real_pthread_attr_setdetachstate (a, st);
+}
+int __wrap_pthread_join (pthread_t t, void **r) {
+	if (fail_join) { fail_join = 0; return ESRCH; }      /* the thread is NOT joined */
+	return __real_pthread_join (t, r);
+}
+
 /* ---- handle bookkeeping */
 static int tag_handle (PUThread *p, int thread, int joinable, int ur, int ours) {
 	pthread_mutex_lock (&amx);
@@ -317,24 +358,70 @@ static void exec_op (Slot *s) {
 			if (o->namelen < 0) name = "w";
 			else { for (int i = 0; i < o->namelen; i++) nbuf[i] = (char) ('a' + i % 26); nbuf[o->namelen] = 0; name = nbuf; }
 		}
-		create_mode = o->cmode;
+		create_mode = o->cmode == 2 ? 2 : o->cmode == 3 ? 3 : o->cmode == 1 ? 1 : 0;
+		fail_attr_init = o->cmode == 4; fail_detach = o->cmode == 5;
+		watch_big = 1; first_big = NULL; first_big_freed = 0;
 		PUThread *p = o->full ? p_uthread_create_full (worker, NULL, o->jv, (PUThreadPriority) o->prio, (psize) o->stack, name)
 				      : p_uthread_create (worker, NULL, o->jv, name);
+		watch_big = 0;
 		create_mode = 0;
+		if (fail_attr_init || fail_detach) DIE ("scripted native failure was not consumed");
 		if (p == NULL) {
-			if (o->cmode == 2) { strcpy (o->res, "NULL"); break; }
+			if (o->cmode == 2 || o->cmode == 4 || o->cmode == 5) {
+				/* the block the failed call allocated takes the next handle id: released inside the call (F=), or - if the
+				 * library kept it - alive from now on (L=) */
+				pthread_mutex_lock (&amx);
+				if (nextH >= MAXH) DIE ("too many handles");
+				int id = nextH++;
+				hptr[id] = NULL; urefs[id] = 0; hthread[id] = -1; hjoinable[id] = 0; hjoined[id] = 0; hthreadref[id] = 0; hours[id] = 0;
+				if (first_big != NULL && first_big_freed) freedH[nfreedH++] = id;
+				else if (first_big != NULL) { int i = blk_find (first_big); if (i >= 0) { blks[i].tag = 'H'; blks[i].id = id; } }
+				pthread_mutex_unlock (&amx);
+				strcpy (o->res, "NULL");
+				break;
+			}
 			DIE ("p_uthread_create failed");
+		}
+		if (o->cmode == 2 || o->cmode == 4 || o->cmode == 5) {
+			/* the native layer failed and the library still handed out a handle */
+			snprintf (o->res, 48, "nonnull-after-native-failure");
+			break;
 		}
 		int t = last_created_slot;
 		int h = tag_handle (p, t, o->joinable, 1, 1);
 		snprintf (o->res, 48, "T%d,H%d", t, h);
 		break; }
-	case O_SET: case O_REPLACE: case O_GET: tls_call (o->kind, kptr[o->k], o->v, o->res); break;
+	case O_SET: case O_REPLACE: case O_GET:
+		fail_kc = o->jfail;                             /* `… fail`: the lazy pthread_key_create of this call fails */
+		watch_all = o->jfail; nop_blk = 0;
+		tls_call (o->kind, kptr[o->k], o->v, o->res);
+		watch_all = 0;
+		if (fail_kc) DIE ("scripted pthread_key_create failure was not consumed");
+		if (o->jfail && nop_blk > 0) snprintf (o->res, 48, "leak:%d", nop_blk);   /* the failed call kept a block */
+		break;
 	case O_RACE:
 		while (!race_go) ;
 		p_uthread_set_local (kptr[o->k], (ppointer) (uintptr_t) o->v);
 		break;
 	case O_CURRENT: {
+		if (o->jfail) {
+			/* the next 2 / 3 pthread_key_create calls fail: the fresh handle cannot be stored */
+			fail_kc = o->jfail;
+			watch_big = 1; first_big = NULL; first_big_freed = 0;
+			PUThread *q = p_uthread_current ();
+			watch_big = 0;
+			if (fail_kc) DIE ("scripted pthread_key_create failures were not consumed");
+			if (q != NULL) { strcpy (o->res, "nonnull-after-native-failure"); break; }
+			pthread_mutex_lock (&amx);
+			if (nextH >= MAXH) DIE ("too many handles");
+			int id = nextH++;
+			hptr[id] = NULL; urefs[id] = 0; hthread[id] = -1; hjoinable[id] = 0; hjoined[id] = 0; hthreadref[id] = 0; hours[id] = 0;
+			if (first_big != NULL && first_big_freed) freedH[nfreedH++] = id;
+			else if (first_big != NULL) { int i = blk_find (first_big); if (i >= 0) { blks[i].tag = 'H'; blks[i].id = id; } }
+			pthread_mutex_unlock (&amx);
+			strcpy (o->res, "NULL");
+			break;
+		}
 		PUThread *p = p_uthread_current ();
 		if (p == NULL) DIE ("p_uthread_current failed");
 		snprintf (o->res, 48, "H%d", tag_handle (p, my_slot, 0, 0, 0));
@@ -352,7 +439,21 @@ static void exec_op (Slot *s) {
 		break;
 	case O_REF: p_uthread_ref (hptr[o->h]); break;
 	case O_UNREF: p_uthread_unref (hptr[o->h]); break;
-	case O_JOIN: snprintf (o->res, 48, "%d", (int) p_uthread_join (hptr[o->h])); break;
+	case O_JOIN:
+		fail_join = o->jfail;
+		snprintf (o->res, 48, "%d", (int) p_uthread_join (hptr[o->h]));
+		if (fail_join) DIE ("scripted pthread_join failure was not consumed");
+		break;
+	case O_MISC: {
+		/* the entry points without any handle / TLS state: processor count (>= 1, what sysconf says), yield, native id of the caller */
+		pint n = p_uthread_ideal_count ();
+		long sc = sysconf (_SC_NPROCESSORS_ONLN);
+		p_uthread_yield ();
+		P_HANDLE id = p_uthread_current_id ();
+		if (n < 1 || (sc > 0 && n != (pint) sc)) snprintf (o->res, 48, "misc:ideal_count=%d", (int) n);
+		else if (id != (P_HANDLE) ((psize) pthread_self ())) strcpy (o->res, "misc:current_id");
+		else strcpy (o->res, "ok");
+		break; }
 	case O_PRIO: (void) p_uthread_set_priority (hptr[o->h], (PUThreadPriority) o->prio); break;
 	case O_KEYNEW: {
 		PDestroyFunc f = NULL;
@@ -493,23 +594,43 @@ static void run_case (char **lines, int n) {
 				else if (!strcmp (x, "x")) o.cmode = o.cmode ? 99 : 1;
 				else if (!strcmp (x, "eagain")) o.cmode = o.cmode ? 99 : 2;
 				else if (!strcmp (x, "eperm")) o.cmode = o.cmode ? 99 : 3;
+				else if (!strcmp (x, "fail:attr")) o.cmode = o.cmode ? 99 : 4;
+				else if (!strcmp (x, "fail:detach")) o.cmode = o.cmode ? 99 : 5;
 				else if (x[0] == 'p' && digits && atoi (x + 1) <= 7) { o.full = 1; o.prio = atoi (x + 1); }
 				else if (x[0] == 's' && digits) { o.full = 1; o.stack = (unsigned long) atoi (x + 1) * 1024UL; }
 				else okc = 0;
 			}
 			if (!okc || o.cmode == 99) { bad (); continue; }
 			dispatch (a, &o);
-			if (o.cmode == 1) { Slot *c = &slots[last_created_slot]; swait (&c->done); c->state = RUNNING; }
+			if (o.cmode == 1) { Slot *c = &slots[last_created_slot]; swait (&c->done); c->state = RUNNING; kpub[0] = 1; }
 			answer (o.res, "", 1);
 		} else if (!strcmp (op, "start") && nw == 2) {
 			if (s->state != CREATED) { bad (); continue; }
-			sem_post (&s->start_gate); swait (&s->done); s->state = RUNNING;
+			sem_post (&s->start_gate); swait (&s->done); s->state = RUNNING; kpub[0] = 1;
 			answer ("-", "", 1);
 		} else if ((!strcmp (op, "set") || !strcmp (op, "replace")) && nw == 4) {
 			int k = atoi (w[2]);
 			if (!running || !key_ok (k)) { bad (); continue; }
 			o.kind = !strcmp (op, "set") ? O_SET : O_REPLACE; o.k = k; o.v = strtoul (w[3], NULL, 10);
 			dispatch (a, &o); kpub[k] = 1; answer ("-", "", 1);
+		} else if ((!strcmp (op, "set") || !strcmp (op, "replace")) && nw == 5 && !strcmp (w[4], "fail")) {
+			int k = atoi (w[2]);
+			if (!running || !key_ok (k) || kpub[k]) { bad (); continue; }
+			o.kind = !strcmp (op, "set") ? O_SET : O_REPLACE; o.k = k; o.v = strtoul (w[3], NULL, 10); o.jfail = 1;
+			dispatch (a, &o); answer ("-", "", 1);
+		} else if (!strcmp (op, "get") && nw == 4 && !strcmp (w[3], "fail")) {
+			int k = atoi (w[2]);
+			if (!running || !key_ok (k) || kpub[k]) { bad (); continue; }
+			o.kind = O_GET; o.k = k; o.jfail = 1;
+			dispatch (a, &o); answer (o.res, "", 1);
+		} else if (!strcmp (op, "current") && nw == 3 && (!strcmp (w[2], "fail2") || !strcmp (w[2], "fail3"))) {
+			int pend0 = 0;
+			for (int t = 1; t < nextT; t++) if (slots[t].pending && (slots[t].pend_op.named || slots[t].pend_op.kind == O_CURRENT)) pend0 = 1;
+			if (!running || kpub[0] || pend0) { bad (); continue; }
+			o.kind = O_CURRENT; o.jfail = w[2][4] - '0';
+			dispatch (a, &o);
+			if (o.jfail == 2) kpub[0] = 1;
+			answer (o.res, "", 1);
 		} else if (!strcmp (op, "get") && nw == 3) {
 			int k = atoi (w[2]);
 			if (!running || !key_ok (k)) { bad (); continue; }
@@ -517,11 +638,11 @@ static void run_case (char **lines, int n) {
 			dispatch (a, &o); kpub[k] = 1; answer (o.res, "", 1);
 		} else if (!strcmp (op, "current") && nw == 2) {
 			if (!running) { bad (); continue; }
-			o.kind = O_CURRENT; dispatch (a, &o); answer (o.res, "", 1);
+			o.kind = O_CURRENT; dispatch (a, &o); kpub[0] = 1; answer (o.res, "", 1);
 		} else if (!strcmp (op, "exit") && nw == 3) {
 			if (!running) { bad (); continue; }
 			o.kind = O_EXIT; o.code = strtol (w[2], NULL, 10);
-			dispatch (a, &o);                       /* library thread: `done` comes from the gate destructor */
+			dispatch (a, &o); kpub[0] = 1;                       /* library thread: `done` comes from the gate destructor */
 			if (!(s->foreign || a == 0)) { s->state = FINISHED; strcpy (o.res, "-"); }
 			answer (o.res, "", 1);
 		} else if (!strcmp (op, "return") && nw == 2) {
@@ -553,6 +674,13 @@ static void run_case (char **lines, int n) {
 				if (hjoinable[h]) hjoined[h] = 1;
 				answer (o.res, "", 1);
 			}
+		} else if (!strcmp (op, "join") && nw == 4 && !strcmp (w[3], "fail")) {
+			/* p_uthread_join whose native pthread_join reports an error: comes back at once whatever the target is doing */
+			int h = atoi (w[2]), busy = 0;
+			for (int t = 1; t < nextT; t++) if (slots[t].joining && slots[t].join_h == h) busy = 1;
+			if (!running || h < 0 || h >= nextH || !permitted_use (a, h) || hjoined[h] || !hjoinable[h] || busy) { bad (); continue; }
+			o.kind = O_JOIN; o.h = h; o.jfail = 1; dispatch (a, &o);
+			answer (o.res, "", 1);
 		} else if (!strcmp (op, "jbegin") && nw == 3) {
 			int h = atoi (w[2]);
 			if (!running || a == 0 || h < 0 || h >= nextH || !permitted_use (a, h) || hjoined[h] || !hjoinable[h]) { bad (); continue; }
@@ -576,6 +704,9 @@ static void run_case (char **lines, int n) {
 			if (!running || h < 0 || h >= nextH || !permitted_use (a, h) || !hours[h] || slots[hthread[h]].state == ENDED
 			    || strlen (w[3]) != 1 || w[3][0] < '0' || w[3][0] > '7') { bad (); continue; }
 			o.kind = O_PRIO; o.h = h; o.prio = pr; dispatch (a, &o); answer ("-", "", 1);
+		} else if (!strcmp (op, "misc") && nw == 2) {
+			if (!running) { bad (); continue; }
+			o.kind = O_MISC; dispatch (a, &o); answer (o.res, "", 1);
 		} else if (!strcmp (op, "keynew") && nw == 3) {
 			if (!running || (strcmp (w[2], "n") && strcmp (w[2], "x")) || nextK >= MAXK) { bad (); continue; }
 			o.kind = O_KEYNEW; o.notif = !strcmp (w[2], "n"); dispatch (a, &o); answer (o.res, "", 1);
@@ -600,13 +731,13 @@ static void run_case (char **lines, int n) {
 			if (is_start) sem_post (&s->start_gate); else sem_post (&s->cmd);
 			swait (&s->done);
 			if (s->at_cas) { s->pending = 1; s->pend_op = o; s->pend_op.named = is_start; answer ("-", "atcas", 1); }
-			else { s->arm_cas = 0; if (is_start) s->state = RUNNING; answer (s->op.res[0] && !is_start ? s->op.res : "-", "done", 1); }
+			else { s->arm_cas = 0; if (is_start) s->state = RUNNING; if (is_start || is_cur) kpub[0] = 1; answer (s->op.res[0] && !is_start ? s->op.res : "-", "done", 1); }
 		} else if (!strcmp (op, "kcas") && nw == 2) {
 			if (!s->pending) { bad (); continue; }
 			s->pending = 0; s->at_cas = 0; s->cas_result = 0;
 			sem_post (&s->cas_gate); swait (&s->done);
 			if (s->pend_op.named) s->state = RUNNING;
-			if (!s->pend_op.named && s->pend_op.kind != O_CURRENT) kpub[s->pend_op.k] = 1;
+			if (!s->pend_op.named && s->pend_op.kind != O_CURRENT) kpub[s->pend_op.k] = 1; else kpub[0] = 1;
 			answer (s->pend_op.named ? "-" : s->op.res, s->cas_result == 1 ? "won" : "lost", 1);
 		} else bad ();
 	}
